@@ -9,11 +9,13 @@ package main
 
 import (
 	"encoding/hex"
+	"errors"
 	"fmt"
 	"math"
 	"os"
 	"strconv"
 	"strings"
+	"sync/atomic"
 	"time"
 
 	lua "github.com/yuin/gopher-lua"
@@ -42,7 +44,12 @@ type apiWorld struct {
 	junk, prod int
 	fail       int
 	tight      bool
+	nups       int            // upvalues of the Go closure that is the activation under test
+	hfinal     *lua.LFunction // that closure (nil at depth 0)
 }
+
+// upvalues the closures of the activation under test are created with (SetFuncs), first `nups` of them
+var c10UpInit = []lua.LValue{lua.LNumber(7101), lua.LString("up2"), lua.LNil}
 
 func (w *apiWorld) emit(req, reply string) {
 	l := "C10 " + req
@@ -81,7 +88,22 @@ func (w *apiWorld) dec(tok string) lua.LValue {
 		if v, ok := w.refs[n]; ok {
 			return v
 		}
-		t := w.L.NewTable()
+		// r1..r10: tables; r11: Lua function, r12: host function, r13: userdata, r14: thread, r15: channel
+		var t lua.LValue
+		switch n {
+		case 11:
+			t = w.L.G.Global.RawGetString("handler")
+		case 12:
+			t = w.L.NewFunction(func(L *lua.LState) int { return 0 })
+		case 13:
+			t = w.L.NewUserData()
+		case 14:
+			t, _ = w.L.NewThread()
+		case 15:
+			t = lua.LChannel(make(chan lua.LValue))
+		default:
+			t = w.L.NewTable()
+		}
 		w.rt.Bind(t, n)
 		w.refs[n] = t
 		return t
@@ -125,6 +147,112 @@ func (w *apiWorld) frameLine(L *lua.LState) {
 		strings.Join(w.slots(L, 0, sn.RegCap), " ")), "")
 }
 
+// pframeLine: the cells behind the pseudo-indices, read from the exported fields (not through Get).
+func (w *apiWorld) pframeLine(L *lua.LState) {
+	env, has := "-", "F"
+	var ups []string
+	if w.depth > 0 && w.hfinal != nil {
+		has = "T"
+		env = w.enc(w.hfinal.Env)
+		for _, u := range w.hfinal.Upvalues {
+			ups = append(ups, w.enc(u.Value()))
+		}
+	}
+	w.emit(strings.TrimSpace(fmt.Sprintf("pframe %s %s %s %s %s %s", has, w.enc(L.G.Registry), w.enc(L.G.Global), w.enc(L.Env), env,
+		strings.Join(ups, " "))), "")
+}
+
+// pseudoIdx: reg | env | glob | up<n>
+func pseudoIdx(which string) int {
+	switch which {
+	case "reg":
+		return lua.RegistryIndex
+	case "env":
+		return lua.EnvironIndex
+	case "glob":
+		return lua.GlobalsIndex
+	}
+	n, _ := strconv.Atoi(strings.TrimPrefix(which, "up"))
+	return lua.UpvalueIndex(n)
+}
+
+func isTableTok(v lua.LValue) string {
+	if _, ok := v.(*lua.LTable); ok {
+		return "T"
+	}
+	return "F"
+}
+
+// preplace: Replace at a pseudo-index. Registry and globals are put back afterwards (the harness itself lives on them);
+// while the new globals table is installed, SetGlobal / GetGlobal must go to it.
+func (w *apiWorld) preplaceOp(L *lua.LState, which string, v lua.LValue) {
+	idx := pseudoIdx(which)
+	var orig lua.LValue
+	switch which {
+	case "reg":
+		orig = L.G.Registry
+	case "glob":
+		orig = L.G.Global
+	}
+	w.guarded(L, fmt.Sprintf("preplace %d %s %s", idx, w.enc(v), isTableTok(v)), func() { L.Replace(idx, v) })
+	w.emit(fmt.Sprintf("pget %d", idx), w.enc(L.Get(idx)))
+	switch which {
+	case "glob":
+		nt := v.(*lua.LTable)
+		L.SetGlobal("zz", lua.LNumber(5))
+		w.emit(fmt.Sprintf("eq newglobals %s %s %s | i5 nil i5", w.enc(nt.RawGetString("zz")), w.enc(orig.(*lua.LTable).RawGetString("zz")),
+			w.enc(L.GetGlobal("zz"))), "")
+	case "env":
+		w.emit(fmt.Sprintf("eq fenv %s | %s", w.enc(L.GetFEnv(w.hfinal)), w.enc(v)), "")
+	}
+	if orig != nil {
+		w.guarded(L, fmt.Sprintf("preplace %d %s T", idx, w.enc(orig)), func() { L.Replace(idx, orig) })
+		w.emit(fmt.Sprintf("pget %d", idx), w.enc(L.Get(idx)))
+	}
+}
+
+// toOp: the To* conversions at an index = the conversion (as Lua defines it: l_to evaluates tonumber / tostring / truth /
+// type on the same value) of what Get gives there.
+func (w *apiWorld) toOp(L *lua.LState, idx int, pseudo bool) {
+	v := L.Get(idx)
+	if pseudo {
+		w.emit(fmt.Sprintf("pget %d", idx), w.enc(v))
+	} else {
+		w.emit(fmt.Sprintf("get %d", idx), w.enc(v))
+	}
+	same := func(x lua.LValue, isNil bool) string {
+		switch {
+		case isNil:
+			return "nil"
+		case x == v:
+			return "same"
+		}
+		return "other"
+	}
+	tb, fn, ud, th, ch := L.ToTable(idx), L.ToFunction(idx), L.ToUserData(idx), L.ToThread(idx), L.ToChannel(idx)
+	got := []string{w.enc(lbool(L.ToBool(idx))), strconv.Itoa(L.ToInt(idx)), strconv.FormatInt(L.ToInt64(idx), 10), encNum(float64(L.ToNumber(idx))),
+		"s" + hexOf(L.ToString(idx)), same(tb, tb == nil), same(fn, fn == nil), same(ud, ud == nil), same(th, th == nil),
+		same(lua.LChannel(ch), ch == nil)}
+	want := []string{"?"}
+	if w.tight {
+		return // the oracle is a Lua call
+	}
+	if r, ok := w.lcall(L, "l_to", 4, v); ok {
+		n := float64(r[1].(lua.LNumber))
+		ty := string(r[3].(lua.LString))
+		is := func(t string) string {
+			if ty == t {
+				return "same"
+			}
+			return "nil"
+		}
+		want = []string{w.enc(r[0]), strconv.Itoa(int(n)), strconv.FormatInt(int64(n), 10), encNum(n), "s" + hexOf(string(r[2].(lua.LString))),
+			is("table"), is("function"), is("userdata"), is("thread"), is("channel")}
+	}
+	w.emit("eq to:"+strconv.Itoa(idx)+" "+strings.Join(got, " ")+" | "+strings.Join(want, " "), "")
+	w.resyncLine(L)
+}
+
 func (w *apiWorld) snapLine(L *lua.LState) {
 	sn := L.VerifSnapshot()
 	w.emit("snap", strings.TrimSpace(fmt.Sprintf("%d %d %s", sn.Top, sn.RegCap, strings.Join(w.slots(L, 0, sn.RegCap), " "))))
@@ -134,6 +262,18 @@ func (w *apiWorld) snapLine(L *lua.LState) {
 func (w *apiWorld) resyncLine(L *lua.LState) {
 	sn := L.VerifSnapshot()
 	w.emit(strings.TrimSpace(fmt.Sprintf("resync %d %s", sn.RegCap, strings.Join(w.slots(L, sn.Top, sn.RegCap), " "))), "")
+}
+
+func (w *apiWorld) gettopLine(L *lua.LState) { w.emit("gettop", strconv.Itoa(L.GetTop())) }
+
+// sweepLine: Get at every index from -(top+2) to top+2.
+func (w *apiWorld) sweepLine(L *lua.LState) {
+	n := L.GetTop() + 2
+	var parts []string
+	for i := -n; i <= n; i++ {
+		parts = append(parts, w.enc(L.Get(i)))
+	}
+	w.emit("sweep", strings.Join(parts, " "))
 }
 
 // guarded runs a mutator; an error raised by the API (register underflow, registry overflow) is reported as
@@ -157,6 +297,7 @@ func (w *apiWorld) guarded(L *lua.LState, req string, f func()) {
 // runOps executes the innermost activation's ops; returns the count the host function returns.
 func (w *apiWorld) runOps(L *lua.LState) int {
 	w.frameLine(L)
+	w.pframeLine(L)
 	for _, op := range w.ops {
 		a := op.Args
 		switch a[0] {
@@ -184,16 +325,44 @@ func (w *apiWorld) runOps(L *lua.LState) int {
 			n, _ := strconv.Atoi(a[1])
 			w.emit(op.String(), w.enc(L.Get(n)))
 		case "gettop":
-			w.emit(op.String(), strconv.Itoa(L.GetTop()))
+			w.gettopLine(L)
 		case "sweep":
-			n := L.GetTop() + 2
-			var parts []string
-			for i := -n; i <= n; i++ {
-				parts = append(parts, w.enc(L.Get(i)))
-			}
-			w.emit(op.String(), strings.Join(parts, " "))
+			w.sweepLine(L)
 		case "snap":
 			w.snapLine(L)
+		case "pget": // pget reg|env|glob|up<n>
+			if strings.HasPrefix(a[1], "up") && w.depth == 0 {
+				continue // no running function: the call has no meaning (in this implementation: nil dereference)
+			}
+			w.emit(fmt.Sprintf("pget %d", pseudoIdx(a[1])), w.enc(L.Get(pseudoIdx(a[1]))))
+		case "preplace": // preplace reg|env|glob|up<n> <value token>
+			if strings.HasPrefix(a[1], "up") && w.depth == 0 {
+				continue
+			}
+			w.preplaceOp(L, a[1], w.dec(a[2]))
+		case "to": // to <index> | to reg|env|glob|up<n>
+			if n, err := strconv.Atoi(a[1]); err == nil {
+				w.toOp(L, n, false)
+			} else if !(strings.HasPrefix(a[1], "up") && w.depth == 0) {
+				w.toOp(L, pseudoIdx(a[1]), true)
+			}
+		case "fail":
+			// the activation under test itself fails (1: Lua error, 2: Go runtime panic, 6: Go value): whatever protected
+			// call of the chain catches it runs its handler; at top level there is nothing to unwind to
+			if w.depth == 0 {
+				continue
+			}
+			w.snapLine(L)
+			w.raised = true
+			switch a[1] {
+			case "1":
+				L.RaiseError("inner failure")
+			case "2":
+				var t *lua.LTable
+				t.RawSetInt(1, lua.LNil)
+			default:
+				panic(errors.New("inner go value"))
+			}
 		case "call":
 			if w.tight {
 				continue // callee code in a nearly exhausted registry: overflow there is C12's subject
@@ -223,7 +392,82 @@ func (w *apiWorld) runOps(L *lua.LState) int {
 	return 0
 }
 
-// callOp: call <mode> <callee> <nargs> <nret> <produced> <junk> <fail>
+// handler kinds of a protected call (optional 9th argument of a call op in the modes pcallh / cbph; default hret).
+// returning: hret (Lua), hgo / hgo0 (host function returning 1 / 0 values), hpcall (Lua, runs pcalls of its own),
+// hgonest (host function making a failing protected call whose handler fails, then returning);
+// failing: hraise / hraiseobj / hfault / hoverflow (Lua: error(string), error(table), runtime fault, call-stack overflow),
+// hgoraise (host function: RaiseError), hgopanic (host function: panic with a Go value), hgonestraise.
+var c10HandlerKinds = []string{"hret", "hgo", "hgo0", "hpcall", "hgonest", "hraise", "hraiseobj", "hfault", "hoverflow", "hgoraise", "hgopanic", "hgonestraise"}
+
+func handlerReturns(hk string) bool {
+	switch hk {
+	case "hret", "hgo", "hgo0", "hpcall", "hgonest":
+		return true
+	}
+	return false
+}
+
+func (w *apiWorld) handlerFn(L *lua.LState, hk string, salt int) *lua.LFunction {
+	switch hk {
+	case "hret":
+		return L.G.Global.RawGetString("handler").(*lua.LFunction)
+	case "hraise", "hraiseobj", "hfault", "hoverflow", "hpcall":
+		return L.G.Global.RawGetString(hk).(*lua.LFunction)
+	}
+	return L.NewFunction(func(L *lua.LState) int {
+		eo := L.Get(1)
+		for j := 0; j < salt%3; j++ {
+			L.Push(lua.LNumber(6501 + j))
+		}
+		switch hk {
+		case "hgo":
+			L.Push(lua.LString("H:go"))
+			return 1
+		case "hgo0":
+			return 0
+		case "hgoraise":
+			L.RaiseError("HE:go")
+		case "hgopanic":
+			switch salt % 3 {
+			case 0:
+				panic(errors.New("HP:error value"))
+			case 1:
+				panic("HP:string")
+			default:
+				var t *lua.LTable
+				t.RawSetInt(1, lua.LNil)
+			}
+		case "hgonest", "hgonestraise":
+			// the handler is itself a host function (at a deeper base, above the failed frames) that makes a failing
+			// protected call whose handler fails; its own view must be intact afterwards
+			own := L.GetTop()
+			L.Push(lua.LNumber(4401))
+			L.Push(L.NewFunction(func(L *lua.LState) int {
+				L.Push(lua.LNumber(1))
+				L.RaiseError("inner boom")
+				return 0
+			}))
+			L.Push(lua.LNumber(4402))
+			err := L.PCall(1, 2, L.G.Global.RawGetString("hraise").(*lua.LFunction))
+			w.emit(fmt.Sprintf("eq hnest %d %s %s %s %s %s | %d %s i4401 i4401 nil T", L.GetTop(), w.enc(L.Get(1)), w.enc(L.Get(own+1)),
+				w.enc(L.Get(-1)), w.enc(L.Get(own+2)), w.enc(lbool(err != nil)), own+1, w.enc(eo)), "")
+			L.Push(lua.LNumber(4403))
+			L.Replace(-2, lua.LNumber(4404))
+			w.emit(fmt.Sprintf("eq hnest2 %d %s %s | %d i4404 i4403", L.GetTop(), w.enc(L.Get(own+1)), w.enc(L.Get(-1)), own+2), "")
+			L.Pop(2)
+			if hk == "hgonestraise" {
+				L.RaiseError("HE:nest")
+			}
+			L.Push(lua.LString("H:nest"))
+			return 1
+		}
+		return 0
+	})
+}
+
+// callOp: call <mode> <callee> <nargs> <nret> <produced> <junk> <fail> [<handler kind>]
+// fail: 0 returns; 1 Lua error; 2 runtime fault (Lua callee) / Go runtime panic (host callee); 4 call-stack overflow;
+// 5 registry overflow; 6 a Go value panics (host callee: directly; Lua callee: in a host function it calls).
 func (w *apiWorld) callOp(L *lua.LState, a []string) {
 	mode, callee := a[1], a[2]
 	nargs, _ := strconv.Atoi(a[3])
@@ -231,8 +475,12 @@ func (w *apiWorld) callOp(L *lua.LState, a []string) {
 	prod, _ := strconv.Atoi(a[5])
 	junk, _ := strconv.Atoi(a[6])
 	fail, _ := strconv.Atoi(a[7])
+	hk := "hret"
+	if len(a) > 8 {
+		hk = a[8]
+	}
 	protected := mode == "pcall" || mode == "pcallh" || mode == "cbpp" || mode == "cbph" || mode == "gpcall"
-	if !protected {
+	if !protected || fail == 3 || fail > 6 {
 		fail = 0
 	}
 	if mode == "gpcall" {
@@ -244,6 +492,13 @@ func (w *apiWorld) callOp(L *lua.LState, a []string) {
 	w.junk, w.prod, w.fail = junk, prod, fail
 	L.SetGlobal("P", lua.LNumber(prod))
 	L.SetGlobal("FAIL", lua.LNumber(fail))
+	var rec *lua.LFunction
+	rec = L.NewFunction(func(L *lua.LState) int {
+		L.Push(lua.LNumber(1))
+		L.Push(rec)
+		L.Call(0, 0)
+		return 0
+	})
 	goCallee := func(L *lua.LState) int {
 		n := L.GetTop()
 		w.calleeArgs = []string{strconv.Itoa(n)}
@@ -258,8 +513,21 @@ func (w *apiWorld) callOp(L *lua.LState, a []string) {
 			for j := 0; j < w.prod/2; j++ {
 				L.Push(lua.LNumber(7001 + j))
 			}
-			if w.fail == 1 {
+			switch w.fail {
+			case 1:
 				L.RaiseError("boom")
+			case 4: // unbounded recursion through the API: the call-frame stack overflows
+				L.Push(rec)
+				L.Call(0, 0)
+			case 5: // pushes until the registry is exhausted
+				for j := 0; ; j++ {
+					L.Push(lua.LNumber(j))
+				}
+			case 6:
+				if w.prod%2 == 0 {
+					panic(errors.New("go value"))
+				}
+				panic("go string value")
 			}
 			var t *lua.LTable
 			t.RawSetInt(1, lua.LNil) // a Go runtime panic inside the callee
@@ -297,7 +565,7 @@ func (w *apiWorld) callOp(L *lua.LState, a []string) {
 	w.calleeArgs = nil
 	var handler *lua.LFunction
 	if mode == "pcallh" || mode == "cbph" {
-		handler = L.G.Global.RawGetString("handler").(*lua.LFunction)
+		handler = w.handlerFn(L, hk, nargs+prod+junk)
 	}
 	var err error
 	switch mode {
@@ -332,9 +600,23 @@ func (w *apiWorld) callOp(L *lua.LState, a []string) {
 		fail = 3 // the callee ran out of registry: a failed protected call like any other
 	}
 	if fail > 0 {
-		w.emit(strings.TrimSpace(fmt.Sprintf("pcallfail %d ; %s", nargs, strings.Join(junkToks, " "))), w.dump(L))
+		// the exit path of PCall's deferred function: no handler / the handler returned / the handler call itself failed
+		// (when the callee exhausted the call-frame stack or the registry a well-behaved handler may not even start)
+		path := "none"
+		switch {
+		case handler == nil:
+		case !handlerReturns(hk):
+			path = "failed"
+		case fail >= 3 && fail <= 5:
+			path = "either"
+		default:
+			path = "returned"
+		}
+		w.emit(strings.TrimSpace(fmt.Sprintf("pcallfail %d %s ; %s", nargs, path, strings.Join(junkToks, " "))), w.dump(L))
 		w.emit("eq perr "+w.enc(lbool(err != nil))+" | T", "")
-		if handler != nil && err != nil {
+		// what the error value is belongs to C07/C08; here only: a handler that returns normally and could run
+		// (the callee did not exhaust the call-frame stack or the registry) produced the error value
+		if handler != nil && err != nil && handlerReturns(hk) && hk != "hgo0" && fail != 4 && fail != 5 {
 			obj := lua.LValue(lua.LNil)
 			if ae, ok := err.(*lua.ApiError); ok && ae.Object != nil {
 				obj = ae.Object
@@ -357,6 +639,11 @@ func (w *apiWorld) callOp(L *lua.LState, a []string) {
 		w.emit("eq cargs "+strings.Join(w.calleeArgs, " ")+" | "+strings.Join(wantArgs, " "), "")
 	}
 	w.resyncLine(L)
+	if protected {
+		// after ANY protected call, failed or not, the caller's view is the list: every index, both directions
+		w.gettopLine(L)
+		w.sweepLine(L)
+	}
 }
 
 func parseChain(s string) []frameSpec {
@@ -400,8 +687,19 @@ func (w *apiWorld) retLine(wantret int, received []lua.LValue) {
 	w.emit(fmt.Sprintf("ret %d %d", w.gfnret, wantret), w.encAll(received))
 }
 
+// a case that hangs leaves a spinning goroutine behind (it cannot be killed in-process): on a tree where many cases
+// hang, later cases get a shorter limit and, past a second threshold, are reported as hung without being run, so that
+// the run still ends (with violations) in reasonable time. Nothing of this is reachable while no case times out.
+var c10Hung int32
+
 // execAPI: world <depth> <chain> <k> <prepush> <grow> <max> <topnret>
 func execAPI(ops []Op) (out []string) {
+	limit := 20 * time.Second
+	if n := atomic.LoadInt32(&c10Hung); n >= 32 {
+		return []string{"X timeout => not run: 32 earlier cases of this run hung"}
+	} else if n >= 8 {
+		limit = 4 * time.Second
+	}
 	done := make(chan []string, 1)
 	go func() {
 		var w *apiWorld
@@ -421,8 +719,9 @@ func execAPI(ops []Op) (out []string) {
 	select {
 	case o := <-done:
 		return o
-	case <-time.After(20 * time.Second):
-		return []string{"X timeout => 20s"}
+	case <-time.After(limit):
+		atomic.AddInt32(&c10Hung, 1)
+		return []string{fmt.Sprintf("X timeout => %v", limit)}
 	}
 }
 
@@ -442,6 +741,12 @@ func (w *apiWorld) run(ops []Op) {
 	grow, _ := strconv.Atoi(wa[5])
 	max, _ := strconv.Atoi(wa[6])
 	topnret, _ := strconv.Atoi(wa[7])
+	if len(wa) > 8 {
+		w.nups, _ = strconv.Atoi(wa[8])
+		if w.nups < 0 || w.nups > len(c10UpInit) {
+			w.nups = 0
+		}
+	}
 	for _, o := range ops[1:] {
 		if o.Args[0] != "world" {
 			w.ops = append(w.ops, o)
@@ -463,6 +768,21 @@ func (w *apiWorld) run(ops []Op) {
 		L.Push(ud)
 		return 1
 	}))
+	L.SetGlobal("newgofn", L.NewFunction(func(L *lua.LState) int {
+		f := L.NewFunction(func(L *lua.LState) int {
+			env, _ := L.Get(lua.EnvironIndex).(*lua.LTable)
+			if env == nil {
+				return 0
+			}
+			L.Push(env.RawGetString("X"))
+			return 1
+		})
+		if isgo, ok := L.G.Global.RawGetString("ISGO").(*lua.LTable); ok {
+			isgo.RawSet(f, lua.LTrue)
+		}
+		L.Push(f)
+		return 1
+	}))
 	L.SetGlobal("cargs", L.NewFunction(func(L *lua.LState) int {
 		n := L.GetTop()
 		w.calleeArgs = []string{w.enc(L.Get(1))[1:]}
@@ -470,6 +790,10 @@ func (w *apiWorld) run(ops []Op) {
 			w.calleeArgs = append(w.calleeArgs, w.enc(L.Get(i)))
 		}
 		return 0
+	}))
+	L.SetGlobal("gopanic", L.NewFunction(func(L *lua.LState) int {
+		L.Push(lua.LNumber(1))
+		panic(errors.New("go value in a nested host function"))
 	}))
 	L.SetGlobal("chk", L.NewFunction(func(L *lua.LState) int {
 		i := int(L.ToNumber(1))
@@ -491,7 +815,19 @@ func (w *apiWorld) run(ops []Op) {
 	// the activation chain
 	chainfns := L.NewTable()
 	w.fns = make([]lua.LValue, w.depth+2)
-	hfinal := L.NewFunction(func(L *lua.LState) int { return w.runOps(L) })
+	// the activation under test and a peer are closures made by one SetFuncs call: same initial upvalues, cells of their own
+	fnt := L.SetFuncs(L.NewTable(), map[string]lua.LGFunction{
+		"hfinal": func(L *lua.LState) int { return w.runOps(L) },
+		"peer": func(L *lua.LState) int {
+			for i := 1; i <= w.nups+1; i++ {
+				L.Push(L.Get(lua.UpvalueIndex(i)))
+			}
+			return w.nups + 1
+		}}, c10UpInit[:w.nups]...)
+	hfinal := fnt.RawGetString("hfinal").(*lua.LFunction)
+	if w.depth > 0 {
+		w.hfinal = hfinal
+	}
 	gstep := L.NewFunction(func(L *lua.LState) int {
 		i := int(L.ToNumber(1))
 		spec := w.chain[i]
@@ -504,8 +840,21 @@ func (w *apiWorld) run(ops []Op) {
 		next := w.fns[i+1]
 		cargs := append([]lua.LValue{lua.LNumber(i + 1)}, args...)
 		var err error
+		// modes with an error handler: h (PCall, Lua handler that returns), x (PCall, Lua handler that raises),
+		// y (CallByParam+Protect, host handler panicking with a Go value), z (CallByParam+Protect, host handler that returns)
+		var handler *lua.LFunction
 		switch spec.mode {
-		case "c", "p":
+		case "h":
+			handler = w.handlerFn(L, "hret", i)
+		case "x":
+			handler = w.handlerFn(L, "hraise", i)
+		case "y":
+			handler = w.handlerFn(L, "hgopanic", i)
+		case "z":
+			handler = w.handlerFn(L, "hgo", i)
+		}
+		switch spec.mode {
+		case "c", "p", "h", "x":
 			L.Push(next)
 			for _, v := range cargs {
 				L.Push(v)
@@ -513,16 +862,18 @@ func (w *apiWorld) run(ops []Op) {
 			if spec.mode == "c" {
 				L.Call(len(cargs), spec.nret)
 			} else {
-				err = L.PCall(len(cargs), spec.nret, nil)
+				err = L.PCall(len(cargs), spec.nret, handler)
 			}
-		case "b":
-			err = L.CallByParam(lua.P{Fn: next, NRet: spec.nret, Protect: true}, cargs...)
+		case "b", "y", "z":
+			err = L.CallByParam(lua.P{Fn: next, NRet: spec.nret, Protect: true, Handler: handler}, cargs...)
 		default:
 			err = L.CallByParam(lua.P{Fn: next, NRet: spec.nret}, cargs...)
 		}
 		top := L.GetTop()
 		w.emit(fmt.Sprintf("eq gown%d %s | %s", i, w.encAll(collect(L, 1, n+spec.own)), before), "")
+		// the same values addressed from the end of the list (what lies above them is what the call left)
 		res := collect(L, n+spec.own+1, top)
+		w.emit(fmt.Sprintf("eq gneg%d %s | %s", i, w.encAll(collect(L, -(n+spec.own)-len(res), -1-len(res))), before), "")
 		if err != nil {
 			w.emit(fmt.Sprintf("eq gfail%d %d | 0", i, len(res)), "")
 			w.retPending = false
@@ -592,11 +943,24 @@ func (w *apiWorld) run(ops []Op) {
 	if err != nil {
 		w.emit(fmt.Sprintf("eq topclean %d | %d", L.GetTop(), prepush), "")
 	}
+	if w.nups > 0 && !w.tight {
+		// stores through upvalue indices in the activation under test went to its own cells only
+		top := L.GetTop()
+		if L.CallByParam(lua.P{Fn: fnt.RawGetString("peer"), NRet: lua.MultRet, Protect: true}) == nil {
+			w.emit(fmt.Sprintf("eq peerups %s | %s", w.encAll(collect(L, top+1, L.GetTop())),
+				w.encAll(append(append([]lua.LValue{}, c10UpInit[:w.nups]...), lua.LNil))), "")
+		}
+		L.SetTop(top)
+	}
 }
 
 // ---------- generator ----------
 
 var c10Vals = []string{"nil", "nil", "T", "F", "i0", "i1", "i-7", "i42", "s61", "s", "s6e696c", "r1", "r2", "r3"}
+
+// values for the To* conversions: numeric and almost-numeric strings ("10", "0x10", " 5 ", "1e2", "5.5", "-3", "0x", "1e", "5 5"),
+// and one reference object of every other type (Lua function, host function, userdata, thread, channel)
+var c10ConvVals = []string{"s3130", "s30783130", "s203520", "s316532", "s352e35", "s2d33", "s3078", "s3165", "s352035", "r11", "r12", "r13", "r14", "r15"}
 
 func genStackVal(r *Rng) string {
 	switch c := r.Intn(100); {
@@ -606,6 +970,8 @@ func genStackVal(r *Rng) string {
 		return "i" + strconv.Itoa(r.Range(-9, 99))
 	case c < 66:
 		return encNum(float64(r.Range(0, 9)) + 0.5)
+	case c < 72:
+		return Pick(r, c10ConvVals)
 	default:
 		return Pick(r, c10Vals)
 	}
@@ -621,7 +987,7 @@ func genWorld(r *Rng, forceDepth int, allowTight bool) ([]string, int) {
 		if r.Chance(55) {
 			chain = append(chain, "L."+strconv.Itoa(Pick(r, []int{-1, -1, 0, 1, 2, 3})))
 		} else {
-			chain = append(chain, fmt.Sprintf("G.%s.%d.%d", Pick(r, []string{"c", "c", "p", "b", "u"}), Pick(r, []int{-1, -1, 0, 1, 2, 3, 4}), r.Range(0, 3)))
+			chain = append(chain, fmt.Sprintf("G.%s.%d.%d", Pick(r, []string{"c", "c", "c", "p", "b", "u", "u", "h", "x", "y", "z"}), Pick(r, []int{-1, -1, 0, 1, 2, 3, 4}), r.Range(0, 3)))
 		}
 	}
 	cs := "-"
@@ -647,171 +1013,355 @@ func genWorld(r *Rng, forceDepth int, allowTight bool) ([]string, int) {
 		k2 = 0
 	}
 	return []string{"world", strconv.Itoa(depth), cs, strconv.Itoa(k2), strconv.Itoa(prepush), strconv.Itoa(grow), strconv.Itoa(max),
-		strconv.Itoa(Pick(r, []int{-1, -1, 0, 1, 2, 3}))}, func() int {
-		if depth == 0 {
-			return prepush
-		}
-		return k2 + 1
-	}()
+			strconv.Itoa(Pick(r, []int{-1, -1, 0, 1, 2, 3})), strconv.Itoa(r.Range(0, 3))}, func() int {
+			if depth == 0 {
+				return prepush
+			}
+			return k2 + 1
+		}()
 }
 
 func genCallOp(r *Rng) []string {
-	mode := Pick(r, []string{"call", "call", "pcall", "pcall", "pcallh", "cbp", "cbpp", "cbph", "gpcall"})
+	mode := Pick(r, []string{"call", "call", "pcall", "pcall", "pcallh", "pcallh", "cbp", "cbpp", "cbph", "cbph", "gpcall"})
 	fail := 0
-	if mode != "call" && mode != "cbp" && r.Chance(35) {
-		fail = r.Range(1, 2)
+	if mode != "call" && mode != "cbp" && r.Chance(40) {
+		fail = Pick(r, []int{1, 1, 1, 2, 2, 2, 6, 6, 4, 5})
 	}
-	return []string{"call", mode, Pick(r, []string{"lua", "luatail", "go", "go"}), strconv.Itoa(r.Range(0, 4)),
+	op := []string{"call", mode, Pick(r, []string{"lua", "luatail", "go", "go"}), strconv.Itoa(r.Range(0, 4)),
 		strconv.Itoa(r.Range(-1, 4)), strconv.Itoa(r.Range(0, 4)), strconv.Itoa(r.Range(0, 3)), strconv.Itoa(fail)}
+	if mode == "pcallh" || mode == "cbph" {
+		op = append(op, Pick(r, c10HandlerKinds))
+	}
+	return op
 }
 
-// genAPICase: state-aware history; `top` shadows the size of the private list.
-func genAPICase(r *Rng, maxOps int, profile string) []Op {
-	var ops []Op
-	add := func(args ...string) { ops = append(ops, Op{Args: args}) }
-	world, top := genWorld(r, -1, profile == "stack")
-	add(world...)
-	idx := func(forInsert bool) int {
-		switch c := r.Intn(100); {
-		case c < 30:
-			if top == 0 {
-				return 1
-			}
-			return r.Range(1, top)
-		case c < 55:
-			if top == 0 {
-				return -1
-			}
-			return -r.Range(1, top)
-		case c < 63:
-			return top + 1
-		case c < 71:
-			return -(top + 1)
-		case c < 78:
-			return 0
-		case c < 83:
-			return top
-		case c < 88:
-			return -top
-		case c < 91:
+// histGen: state-aware generation of one activation's history; `top` shadows the size of the private list.
+type histGen struct {
+	r   *Rng
+	top int
+	ops []Op
+}
+
+func (g *histGen) add(args ...string) { g.ops = append(g.ops, Op{Args: args}) }
+
+func (g *histGen) idx(forInsert bool) int {
+	r, top := g.r, g.top
+	switch c := r.Intn(100); {
+	case c < 30:
+		if top == 0 {
 			return 1
-		case c < 94:
-			return -1
-		case c < 97:
-			if forInsert {
-				return -(top + 2)
-			}
-			return top + r.Range(2, 4)
-		default:
-			return -(top + r.Range(2, 300))
 		}
+		return r.Range(1, top)
+	case c < 55:
+		if top == 0 {
+			return -1
+		}
+		return -r.Range(1, top)
+	case c < 63:
+		return top + 1
+	case c < 71:
+		return -(top + 1)
+	case c < 78:
+		return 0
+	case c < 83:
+		return top
+	case c < 88:
+		return -top
+	case c < 91:
+		return 1
+	case c < 94:
+		return -1
+	case c < 97:
+		if forInsert {
+			return -(top + 2)
+		}
+		return top + r.Range(2, 4)
+	default:
+		return -(top + r.Range(2, 300))
 	}
+}
+
+// call adds a call op and keeps the shadow of top: function+args are pushed and removed; results stay
+func (g *histGen) call(co []string) {
+	g.add(co...)
+	if co[7] == "0" || co[1] == "call" || co[1] == "cbp" {
+		nr, _ := strconv.Atoi(co[4])
+		if co[1] == "gpcall" {
+			nr = -1
+		}
+		if nr < 0 {
+			nr, _ = strconv.Atoi(co[5])
+		}
+		g.top += nr
+	}
+}
+
+// stackOp adds one stack-API operation (c in [0,95) selects the kind as in the history generator).
+func (g *histGen) stackOp(c int) {
+	r := g.r
+	switch {
+	case c < 24:
+		g.add("push", genStackVal(r))
+		g.top++
+	case c < 27: // burst of pushes (registry growth inside the activation)
+		n := r.Range(5, 40)
+		for j := 0; j < n; j++ {
+			g.add("push", "i"+strconv.Itoa(1000+j))
+		}
+		g.top += n
+	case c < 34:
+		n := 0
+		if g.top > 0 {
+			n = r.Range(0, intMin(g.top, 3))
+		}
+		if r.Chance(12) {
+			n = g.top
+		}
+		g.add("pop", strconv.Itoa(n))
+		g.top -= n
+	case c < 44:
+		var n int
+		top := g.top
+		switch m := r.Intn(10); {
+		case m < 4:
+			n = r.Range(0, top+3)
+		case m < 5:
+			n = top + r.Range(4, 40)
+		case m < 8:
+			n = -r.Range(1, top+1)
+		case m < 9:
+			n = -(top + 2)
+		default:
+			n = top
+		}
+		g.add("settop", strconv.Itoa(n))
+		if n >= 0 {
+			g.top = n
+		} else {
+			g.top = top + n + 1
+			if g.top < 0 {
+				g.top = 0
+			}
+		}
+	case c < 56:
+		i := g.idx(true)
+		g.add("insert", genStackVal(r), strconv.Itoa(i))
+		g.top++
+	case c < 66:
+		i := g.idx(false)
+		g.add("remove", strconv.Itoa(i))
+		if (i >= 1 && i <= g.top) || (i <= -1 && i >= -g.top) {
+			g.top--
+		}
+	case c < 76:
+		g.add("replace", strconv.Itoa(g.idx(false)), genStackVal(r))
+	case c < 83:
+		g.add("get", strconv.Itoa(g.idx(false)))
+	case c < 86: // the To* conversions at the same kinds of indices, and at pseudo-indices
+		if r.Chance(15) {
+			g.add("to", genPseudo(r))
+		} else {
+			g.add("to", strconv.Itoa(g.idx(false)))
+		}
+	case c < 88:
+		g.add("gettop")
+	case c < 89: // Get / Replace at a pseudo-index (tables where a table is required; the failing stores are endings)
+		which := genPseudo(r)
+		switch {
+		case r.Chance(45):
+			g.add("pget", which)
+		case strings.HasPrefix(which, "up"):
+			g.add("preplace", which, genStackVal(r))
+		default:
+			g.add("preplace", which, Pick(r, []string{"r4", "r5", "r6"}))
+		}
+	case c < 93:
+		g.add("sweep")
+	default:
+		g.add("snap")
+	}
+}
+
+func genPseudo(r *Rng) string {
+	return Pick(r, []string{"reg", "env", "glob", "up1", "up1", "up2", "up3", "up4", "up9"})
+}
+
+// ending: how the activation under test finishes.
+func (g *histGen) ending() {
+	r := g.r
+	g.add("sweep")
+	switch c := r.Intn(100); {
+	case c < 66:
+		g.add("ret", strconv.Itoa(r.Range(0, intMin(g.top, 5))))
+	case c < 74:
+		g.add("ret", strconv.Itoa(g.top))
+	case c < 80: // register underflow: a Lua error that unwinds the chain
+		g.add("pop", strconv.Itoa(g.top+r.Range(1, 3)))
+	case c < 88: // the activation itself fails: the chain's protected calls (and their handlers) take over
+		g.add("fail", strconv.Itoa(Pick(r, []int{1, 1, 2, 6})))
+	case c < 91: // a non-table stored as registry / environment / globals: a Lua error
+		g.add("preplace", Pick(r, []string{"reg", "env", "glob"}), Pick(r, []string{"nil", "i1", "s61", "r11", "r13"}))
+	}
+}
+
+// genAPICase: state-aware history.
+func genAPICase(r *Rng, maxOps int, profile string) []Op {
+	world, top := genWorld(r, -1, profile == "stack")
+	g := &histGen{r: r, top: top}
+	g.add(world...)
 	nops := r.Range(3, maxOps)
-	for len(ops) < nops {
+	for len(g.ops) < nops {
 		c := r.Intn(100)
 		if profile == "obj" {
 			if c < 70 {
-				add(genObjOp(r)...)
+				g.add(genObjOp(r)...)
 				continue
 			}
 		} else if profile == "call" {
 			if c < 45 {
-				add(genCallOp(r)...)
+				g.call(genCallOp(r))
 				continue
 			}
 		}
 		c = r.Intn(100)
 		switch {
-		case c < 24:
-			add("push", genStackVal(r))
-			top++
-		case c < 27: // burst of pushes (registry growth inside the activation)
-			n := r.Range(5, 40)
-			for j := 0; j < n; j++ {
-				add("push", "i"+strconv.Itoa(1000+j))
-			}
-			top += n
-		case c < 34:
-			n := 0
-			if top > 0 {
-				n = r.Range(0, intMin(top, 3))
-			}
-			if r.Chance(12) {
-				n = top
-			}
-			add("pop", strconv.Itoa(n))
-			top -= n
-		case c < 44:
-			var n int
-			switch m := r.Intn(10); {
-			case m < 4:
-				n = r.Range(0, top+3)
-			case m < 5:
-				n = top + r.Range(4, 40)
-			case m < 8:
-				n = -r.Range(1, top+1)
-			case m < 9:
-				n = -(top + 2)
-			default:
-				n = top
-			}
-			add("settop", strconv.Itoa(n))
-			if n >= 0 {
-				top = n
-			} else {
-				top = top + n + 1
-				if top < 0 {
-					top = 0
-				}
-			}
-		case c < 56:
-			i := idx(true)
-			add("insert", genStackVal(r), strconv.Itoa(i))
-			top++
-		case c < 66:
-			i := idx(false)
-			add("remove", strconv.Itoa(i))
-			if (i >= 1 && i <= top) || (i <= -1 && i >= -top) {
-				top--
-			}
-		case c < 76:
-			add("replace", strconv.Itoa(idx(false)), genStackVal(r))
-		case c < 86:
-			add("get", strconv.Itoa(idx(false)))
-		case c < 89:
-			add("gettop")
-		case c < 93:
-			add("sweep")
 		case c < 95:
-			add("snap")
+			g.stackOp(c)
 		case c < 98:
-			co := genCallOp(r)
-			add(co...)
-			// shadow of top: function+args are pushed and removed; results stay
-			if co[7] == "0" || co[1] == "call" || co[1] == "cbp" {
-				nr, _ := strconv.Atoi(co[4])
-				if co[1] == "gpcall" {
-					nr = -1
-				}
-				if nr < 0 {
-					nr, _ = strconv.Atoi(co[5])
-				}
-				top += nr
-			}
+			g.call(genCallOp(r))
 		default:
-			add(genObjOp(r)...)
+			g.add(genObjOp(r)...)
 		}
 	}
-	add("sweep")
-	switch c := r.Intn(100); {
-	case c < 70:
-		add("ret", strconv.Itoa(r.Range(0, intMin(top, 5))))
-	case c < 78:
-		add("ret", strconv.Itoa(top))
-	case c < 84: // register underflow: a Lua error that unwinds the chain
-		add("pop", strconv.Itoa(top+r.Range(1, 3)))
+	g.ending()
+	return g.ops
+}
+
+// protCases: protected calls made from inside the activation under test, bounded-exhaustive over
+// depth 0..6 x handler {none + every handler kind} x callee {lua, luatail, go}
+// x outcome {returns, Lua error, fault / Go runtime panic, call-stack overflow, registry overflow, Go value panic}
+// x entry {PCall, CallByParam+Protect} (full: crossed; otherwise the entry alternates so that every (handler, callee, outcome)
+// combination goes through both entries at neighbouring depths);
+// own values below the call window, nargs / NRet / produced / junk and the chain above come from the seed. The call is
+// followed by the whole-registry snapshot, stack-API operations on the caller's list, a second protected call of a
+// random kind and the usual endings (results returned to the chain, or a failure the chain's handlers deal with).
+func protCases(r *Rng, full bool) [][]Op {
+	var res [][]Op
+	i := 0
+	hks := append([]string{"-"}, c10HandlerKinds...)
+	for ei, entry := range []string{"pcall", "cbp"} {
+		for hi, hk := range hks {
+			for ci, callee := range []string{"lua", "luatail", "go"} {
+				for fi, fail := range []int{0, 1, 2, 4, 5, 6} {
+					for depth := 0; depth <= 6; depth++ { // innermost: cheap and expensive cases spread evenly over the driver shards
+						if !full && (hi+ci+fi+depth)%2 != ei {
+							continue
+						}
+						i++
+						rr := r.Fork(uint64(i))
+						world, top := genWorld(rr, depth, false)
+						if fail == 5 && world[6] != "0" {
+							world[5] = "32" // a callee pushing up to the maximum in steps of 1 or 2 slots costs ~30 ms of copying per case
+						}
+						g := &histGen{r: rr, top: top}
+						g.add(world...)
+						for j := rr.Range(0, 3); j > 0; j-- {
+							g.add("push", genStackVal(rr))
+							g.top++
+						}
+						mode := entry
+						switch {
+						case hk != "-":
+							mode += "h"
+						case entry == "cbp":
+							mode = "cbpp"
+						}
+						co := []string{"call", mode, callee, strconv.Itoa(rr.Range(0, 4)), strconv.Itoa(rr.Range(-1, 4)), strconv.Itoa(rr.Range(0, 4)),
+							strconv.Itoa(rr.Range(0, 3)), strconv.Itoa(fail)}
+						if hk != "-" {
+							co = append(co, hk)
+						}
+						g.call(co)
+						g.add("snap")
+						for j := rr.Range(2, 5); j > 0; j-- {
+							c := rr.Intn(95)
+							if c >= 24 && c < 27 {
+								c = 0 // no bursts here
+							}
+							g.stackOp(c)
+						}
+						co2 := genCallOp(rr)
+						if co2[7] == "4" || co2[7] == "5" {
+							co2[7] = "1" // one overflowing callee per case is enough (they are the expensive ones)
+						}
+						g.call(co2)
+						g.stackOp(rr.Intn(95))
+						g.ending()
+						res = append(res, g.ops)
+					}
+				}
+			}
+		}
 	}
-	return ops
+	return res
+}
+
+// pseudoCases: Get / Replace / To* at every pseudo-index (registry, environment, globals, upvalue 1..4 and far beyond) for
+// activations at depth 0..4 whose closure has 0..3 upvalues, with own stack values that must stay what they are; then one
+// value of every type on the stack and the To* conversions at every index from -(top+1) to top+1.
+func pseudoCases(r *Rng) [][]Op {
+	var res [][]Op
+	i := 0
+	for depth := 0; depth <= 4; depth++ {
+		for nups := 0; nups <= 3; nups++ {
+			for _, ending := range []string{"ret", "reg", "env", "glob"} {
+				i++
+				rr := r.Fork(uint64(i))
+				world, top := genWorld(rr, depth, false)
+				world[8] = strconv.Itoa(nups)
+				g := &histGen{r: rr, top: top}
+				g.add(world...)
+				for j := rr.Range(1, 3); j > 0; j-- {
+					g.add("push", genStackVal(rr))
+					g.top++
+				}
+				for _, which := range []string{"reg", "env", "glob", "up1", "up2", "up3", "up4", "up200"} {
+					g.add("pget", which)
+					g.add("to", which)
+					if strings.HasPrefix(which, "up") {
+						g.add("preplace", which, genStackVal(rr))
+					} else if depth > 0 || which != "env" {
+						g.add("preplace", which, "r"+strconv.Itoa(rr.Range(4, 9)))
+					}
+					g.add("pget", which)
+					if rr.Chance(30) {
+						g.stackOp(rr.Intn(24)) // a push in between
+					}
+				}
+				g.add("snap")
+				if ending == "ret" {
+					// one value of every type, converted at every index
+					for _, v := range append(append([]string{}, c10Vals[2:]...), c10ConvVals...) {
+						g.add("push", v)
+						g.top++
+					}
+					for j := -(g.top + 1); j <= g.top+1; j++ {
+						if j < -30 && j > -(g.top-1) || j > 30 && j < g.top-1 {
+							continue // the caller-side values of a deep top-level list: a few are enough
+						}
+						g.add("to", strconv.Itoa(j))
+					}
+					g.add("sweep")
+					g.add("ret", strconv.Itoa(rr.Range(0, 3)))
+				} else {
+					g.add("sweep")
+					g.add("preplace", ending, Pick(rr, []string{"nil", "i1", "s61", "T", "r11", "r13"}))
+				}
+				res = append(res, g.ops)
+			}
+		}
+	}
+	return res
 }
 
 func intMin(a, b int) int {
@@ -877,7 +1427,7 @@ func runC10(run *Run) {
 	if run.Tier == "thorough" {
 		nHist, nCall, nObj, maxOps = 70000, 20000, 30000, 70
 	}
-	run.Rule = "random histories of Push/Pop/Get/SetTop/Insert/Remove/Replace/GetTop (valid, 0, ±top, ±(top+1), far-out indices; nil values inside the list) executed through the public API inside a host function reached through a chain of 0–6 activations (Lua frames with live locals, host frames with own stack values; depth 0 = top level), with the registry at 128 slots + forced growth / tight maximum, each step replayed on the Lean Model of state.go (exact: list, results, whole registry snapshot incl. caller prefix) and on the list Spec; bounded-exhaustive TEST grid (nargs, NRet, produced) in [0,4]x[-1,4]x[0,4] x {Lua, Go callee} x {Call, PCall, CallByParam, CallByParam+Protect} plus failing protected variants; object-level API vs the same operands evaluated by a Lua chunk in the same state (Impl vs Impl, handler logs compared); distinct = distinct op-kind skeletons"
+	run.Rule = "random histories of Push/Pop/Get/SetTop/Insert/Remove/Replace/GetTop (valid, 0, ±top, ±(top+1), far-out indices; nil values inside the list) executed through the public API inside a host function reached through a chain of 0–6 activations (Lua frames with live locals, host frames with own stack values; depth 0 = top level), with the registry at 128 slots + forced growth / tight maximum, each step replayed on the Lean Model of state.go (exact: list, results, whole registry snapshot incl. caller prefix) and on the list Spec; bounded-exhaustive TEST grid (nargs, NRet, produced) in [0,4]x[-1,4]x[0,4] x {Lua, Go callee} x {Call, PCall, CallByParam, CallByParam+Protect} plus failing protected variants; bounded-exhaustive TEST grid of protected calls made inside the activation: depth 0..6 x entry {PCall, CallByParam+Protect} x handler {none, 5 returning kinds, 7 failing kinds: Lua error / table error / fault / call-stack overflow / RaiseError / Go value panic / nested failing protected call} x callee {lua, luatail, go} x outcome {returns, Lua error, fault or Go runtime panic, call-stack overflow, registry overflow, Go value panic}, each followed by gettop + full index sweep + whole-registry snapshot + stack operations + a second protected call (Model = PCall's deferred function by exit path, Spec = list without function/arguments/partial results); host frames of the chain with returning/raising/panicking handlers and activations that fail; Get/Replace/To* at pseudo-indices (registry, environment, globals, upvalues within/beyond a SetFuncs closure's 0..3 upvalues) on the Model of those branches and the manual's cells Spec, the ten To* conversions at valid/negative/beyond-top/pseudo indices for values of every type vs the Lua definitions on the same value; GetFEnv/SetFEnv/ForEach/Register/SetFuncs vs Lua twins; object-level API vs the same operands evaluated by a Lua chunk in the same state (Impl vs Impl, handler logs compared); distinct = distinct op-kind skeletons"
 	run.Assume = []string{"the activation's entry state is read through the verif hooks VerifSnapshot / VerifRegistryValues (read-only)",
 		"callee bodies are abstracted in the Model as 'pushes junk then its results' (host callee); Lua callees (OP_RETURN) are tied only through the observed list after the call",
 		"dead slots above top are re-synchronised from the real registry after callee code ran (they are semantically dead; only Insert beyond top+1 can expose them, which is outside the property's index domain)",
@@ -899,6 +1449,47 @@ func runC10(run *Run) {
 	for i, g := range gridCases(root.Fork(777)) {
 		cases = append(cases, Case{Idx: 3000000 + i, Ops: g, Note: "grid"})
 	}
+	var prot [][]Op
+	if run.Tier == "thorough" {
+		for round := 0; round < 6; round++ {
+			prot = append(prot, protCases(root.Fork(uint64(778+1000*round)), true)...)
+		}
+	} else {
+		prot = protCases(root.Fork(778), false)
+	}
+	for i, g := range prot {
+		cases = append(cases, Case{Idx: 4000000 + i, Ops: g, Note: "prot"})
+	}
+	pseudo := pseudoCases(root.Fork(779))
+	for i, g := range pseudo {
+		cases = append(cases, Case{Idx: 5000000 + i, Ops: g, Note: "pseudo"})
+	}
+	if only := os.Getenv("C10_ONLY"); only != "" { // dev helper: run one family only (corpus | hist | call | obj | grid | prot | pseudo)
+		fam := func(c Case) string {
+			switch {
+			case c.Idx < 0:
+				return "corpus"
+			case c.Idx < 1000000:
+				return "hist"
+			case c.Idx < 2000000:
+				return "call"
+			case c.Idx < 3000000:
+				return "obj"
+			case c.Idx < 4000000:
+				return "grid"
+			case c.Idx < 5000000:
+				return "prot"
+			}
+			return "pseudo"
+		}
+		var sel []Case
+		for _, c := range cases {
+			if fam(c) == only {
+				sel = append(sel, c)
+			}
+		}
+		cases = sel
+	}
 	// batches bound the memory held for request lines (a frame line carries the whole live registry)
 	for lo := 0; lo < len(cases); lo += 6000 {
 		hi := lo + 6000
@@ -908,4 +1499,6 @@ func runC10(run *Run) {
 		runCases(run, cases[lo:hi], execAPI, classifyTagged)
 	}
 	run.Extra["grid_cases"] = len(gridCases(root.Fork(777)))
+	run.Extra["protected_call_cases"] = len(prot)
+	run.Extra["pseudo_index_cases"] = len(pseudo)
 }
